@@ -371,6 +371,12 @@ def handle (toks : List String) : String :=
       match Shapes.setDays (fun b => b) arg with
       | .ok xs => "ok " ++ toString xs.length
       | .error _ => "err:assert"
+  | "ddy_locs" :: which :: l :: ds =>
+    -- the location-update loop of the `design_days` setter (which = days) / `location` setter (which = loc):
+    -- locations are opaque tokens (equal tokens = equal Location objects); answer: the location of every day
+    let days : List (String × Nat) := (List.range ds.length).zip ds |>.map fun p => (p.2, p.1)
+    let out := if which = "loc" then Shapes.updateLocationsOnLocationSet l days else Shapes.updateLocations l days
+    "ok " ++ joinSp (out.map (·.1))
   | ["hdts", leap, mo, da] =>
     match date? leap mo da with
     | some d => showDts (hourlyDatetimesOff Gen.DD.hourlyDayOffset d)
